@@ -336,7 +336,10 @@ def runFlags2 (j : Json) : Except String Json := do
     return pack (cseFlag lim m) (cseCount lim m) m.graph.nodes.length out.graph.nodes.length out
       (cseFlag lim out) (same (cseModel lim out) out) [("inserted", toJson (cseInserted lim m)),
         ("stalled", toJson (cseStalled lim m)), ("w_before", toJson (cseW m.graph.nodes)),
-        ("w_after", toJson (cseW out.graph.nodes))]
+        ("w_after", toJson (cseW out.graph.nodes)),
+        ("depth_before", toJson (cseDepth m)), ("depth_after", toJson (cseDepth out)),
+        ("mu_before", toJson (cseMu m)), ("mu_after", toJson (cseMu out)),
+        ("mu_after2", toJson (cseMu (cseModel lim out)))]
   | ["lsi"] =>
     let out := lsiModel m
     return pack (lsiFlag m) (lsiCount m) (subInits m) (subInits out) out (lsiFlag out) (same (lsiModel out) out) []
